@@ -291,6 +291,9 @@ func (r *FnRun) execBuiltin(st *State, b *ssa.Builtin, cc *ssa.CallCommon, dst *
 	case "ssa:wrapnilchk":
 		r.setResult(dst, r.val(cc.Args[0]))
 		return st
+	case "Sizeof":
+		r.setResult(dst, it(tb.BVI(64, r.e.sizeof(cc.Args[0].Type()))))
+		return st
 	case "min", "max":
 		a, bb := r.scalar(r.val(cc.Args[0])), r.scalar(r.val(cc.Args[1]))
 		_, signed, _ := basicInfo(cc.Args[0].Type())
@@ -535,8 +538,18 @@ func (r *FnRun) applyContract(st *State, c *Contract, calleeName string, sig *ty
 	env2.cur, env2.old = post, pre
 	if nres > 0 {
 		r.bindResults(env2, sig, res)
+		if nres == 1 {
+			r.resultInvariant(post, res, sig.Results().At(0).Type())
+		} else {
+			for i, el := range res.(TupleV).Elems {
+				r.resultInvariant(post, el, sig.Results().At(i).Type())
+			}
+		}
 	}
 	for _, cl := range c.Ensures {
+		if isTraceClause(cl.E) {
+			continue // statements about the callee's own activation trace are not visible to callers
+		}
 		r.assume(post, env2.EvalBool(cl.E))
 	}
 	for _, f := range c.Fresh {
@@ -856,4 +869,32 @@ func (r *FnRun) applyHavoc(post, pre *State, mods []ModTarget) {
 		}
 		post.BH, post.BA = nbh, nba
 	}
+}
+
+// resultInvariant: Go-level invariants of a value returned by a callee (slice bounds, allocated backing object).
+func (r *FnRun) resultInvariant(st *State, v Val, t types.Type) {
+	switch x := v.(type) {
+	case SliceV:
+		r.loadedSliceInvariant(st, x)
+	case PSlice:
+		r.typeInvariant(x, t)
+	}
+}
+
+func isTraceClause(e *Expr) bool {
+	if e == nil {
+		return false
+	}
+	if e.Kind == "call" {
+		switch e.Name {
+		case "tlen", "tkind", "ta", "tb", "tc", "td":
+			return true
+		}
+	}
+	for _, a := range e.Args {
+		if isTraceClause(a) {
+			return true
+		}
+	}
+	return false
 }
